@@ -1,0 +1,30 @@
+//go:build verif
+
+// Package verifhook provides trace/yield points for external verification
+// harnesses (build tag "verif" only).
+package verifhook
+
+import "sync"
+
+var (
+	mutex    sync.RWMutex
+	callback func(name string, args ...interface{})
+)
+
+// Register installs the callback invoked at every hook point (nil removes it).
+// The callback may block to hold the calling goroutine at that point.
+func Register(cb func(name string, args ...interface{})) {
+	mutex.Lock()
+	defer mutex.Unlock()
+	callback = cb
+}
+
+// At marks a named point and hands control to the registered callback.
+func At(name string, args ...interface{}) {
+	mutex.RLock()
+	cb := callback
+	mutex.RUnlock()
+	if cb != nil {
+		cb(name, args...)
+	}
+}
